@@ -1,0 +1,12 @@
+// Copyright 2024 The Mellium Contributors.
+// Use of this source code is governed by the BSD 2-clause
+// license that can be found in the LICENSE file.
+
+//go:build !verif
+
+// Package verifhook provides no-op yield points that a verification harness
+// can observe and block on when the library is built with the "verif" tag.
+package verifhook
+
+// Yield does nothing unless the library is built with the "verif" tag.
+func Yield(point, key string) {}
